@@ -78,6 +78,112 @@ func ruleC18Sources(c *Ctx) {
 	c.check(resolvedParam != nil && sl[resolvedParam], "C18-SOURCES", hname, "include-tree declarations reach the checks", extCall.Pos(),
 		"the document's resolved include tree flows into the external declarations",
 		"the include tree loaded for the document does not flow into the declarations used by the undeclared-account/commodity checks: without a workspace root, declarations in included files are ignored")
+	// ... and it does so whether or not a workspace exists: no read of the document's include tree that feeds the
+	// declarations is control dependent on the server's workspace (a document outside the workspace root's tree
+	// still needs the declarations of the files it includes itself)
+	{
+		isWorkspaceCond := func(cond ssa.Value) bool {
+			for v := range backSlice(cond) {
+				switch x := v.(type) {
+				case *ssa.FieldAddr:
+					if pt, ok := x.X.Type().Underlying().(*types.Pointer); ok && typeHasSuffix(pt.Elem(), "server.Server") {
+						if typeHasSuffix(fieldVarOfAddr(x).Type(), "workspace.Workspace") {
+							return true
+						}
+					}
+				case *ssa.Call:
+					if cal := x.Call.StaticCallee(); cal != nil && cal.Signature.Recv() != nil && typeHasSuffix(cal.Signature.Recv().Type(), "workspace.Workspace") {
+						return true
+					}
+				}
+			}
+			return false
+		}
+		isTreeRead := func(v ssa.Value) (*ssa.BasicBlock, token.Pos, bool) {
+			switch x := v.(type) {
+			case *ssa.FieldAddr:
+				if pt, ok := x.X.Type().Underlying().(*types.Pointer); ok && typeHasSuffix(pt.Elem(), "include.ResolvedJournal") && fieldVarOfAddr(x).Name() == "Files" {
+					return x.Block(), x.Pos(), true
+				}
+			}
+			return nil, token.NoPos, false
+		}
+		nReads := 0
+		cgv2 := cgView{c}
+		// the functions that take part in building the declarations (a value of theirs is in the slice), and the
+		// tree reads in them
+		region := map[*ssa.Function]bool{}
+		for v := range sl {
+			if ins, ok := v.(ssa.Instruction); ok && ins.Parent() != nil && ins.Parent().Pkg == host.Pkg {
+				region[ins.Parent()] = true
+			}
+		}
+		var reads []ssa.Value
+		for _, f := range c.P.ModuleFuncs() {
+			if !region[f] {
+				continue
+			}
+			for _, b := range f.Blocks {
+				for _, ins := range b.Instrs {
+					if v, ok := ins.(ssa.Value); ok {
+						if _, _, isR := isTreeRead(v); isR {
+							// only reads that are iterated or looked up (not a mere emptiness test)
+							reads = append(reads, v)
+						}
+					}
+				}
+			}
+		}
+		for _, v := range reads {
+			blk, pos, ok := isTreeRead(v)
+			if !ok || blk == nil {
+				continue
+			}
+			// a `len(tree.Files) == 0` short cut is not a use of the declarations
+			onlyLen := true
+			for _, r := range *v.Referrers() {
+				ld, ok := r.(*ssa.UnOp)
+				if !ok {
+					onlyLen = false
+					continue
+				}
+				for _, r2 := range *ld.Referrers() {
+					if call, ok := r2.(*ssa.Call); ok {
+						if bi, ok := call.Call.Value.(*ssa.Builtin); ok && bi.Name() == "len" {
+							continue
+						}
+					}
+					onlyLen = false
+				}
+			}
+			if onlyLen {
+				continue
+			}
+			nReads++
+			// the read's own function and the call sites that lead to it from the analysis function
+			blks := []*ssa.BasicBlock{blk}
+			for f, depth := blk.Parent(), 0; f != host && depth < 3; depth++ {
+				sites := cgv2.callersOf(f)
+				if len(sites) != 1 {
+					break
+				}
+				blks = append(blks, sites[0].Block())
+				f = sites[0].Parent()
+			}
+			dep := false
+			for _, b2 := range blks {
+				for _, cc := range controlDeps(b2) {
+					if isWorkspaceCond(cc.Cond) {
+						dep = true
+					}
+				}
+			}
+			c.check(!dep, "C18-SOURCES", funcName(blk.Parent()), "include-tree declarations are used with and without a workspace", pos,
+				"the read of the document's include tree is not conditioned on the workspace",
+				"the declarations of the document's own include tree are only consulted depending on whether a workspace exists: a document outside the workspace root's tree loses the declarations of the files it includes")
+		}
+		c.census("C18-SOURCES", "reads of the document's include tree that feed the declarations", nReads, 1)
+	}
 	// the getters are fetched independently of the diagnostics settings (wherever the lookups live: in the
 	// analysis function or in a helper whose result flows into the declarations)
 	n := 0
@@ -456,6 +562,58 @@ func ruleC20(c *Ctx) {
 			}
 		}
 	}
+	// the single-document calculator (it takes one journal) is the fallback for "no tree": every call of it on the
+	// hover path is control dependent on the tree lookup having returned nil
+	isJournalCalculator := func(cal *ssa.Function) bool {
+		if cal == nil || cal.Pkg == nil || !strings.HasSuffix(cal.Pkg.Pkg.Path(), "internal/analyzer") || cal.Signature.Params().Len() != 1 || cal.Signature.Results().Len() != 1 {
+			return false
+		}
+		pt, ok := cal.Signature.Params().At(0).Type().Underlying().(*types.Pointer)
+		return ok && typeHasSuffix(pt.Elem(), "ast.Journal") && typeHasSuffix(cal.Signature.Results().At(0).Type(), "analyzer.AccountBalances")
+	}
+	nFallback := 0
+	for _, f := range c.P.ModuleFuncs() {
+		top := f
+		for top.Parent() != nil {
+			top = top.Parent()
+		}
+		if top.Pkg != spkH || !reachHover[f] {
+			continue
+		}
+		for _, call := range findCalls(f, isJournalCalculator) {
+			nFallback++
+			blks := []*ssa.BasicBlock{call.Block()}
+			for g, depth := f, 0; g != hover && depth < 3; depth++ {
+				sites := (cgView{c}).callersOf(g)
+				if len(sites) != 1 {
+					break
+				}
+				blks = append(blks, sites[0].Block())
+				g = sites[0].Parent()
+			}
+			onlyWithoutTree := false
+			for _, blk := range blks {
+				for _, cc := range controlCondsPol(blk) {
+					bo, ok := cc.Cond.(*ssa.BinOp)
+					if !ok {
+						continue
+					}
+					isTreeNil := func(x, y ssa.Value) bool {
+						k, isK := y.(*ssa.Const)
+						pt, isP := x.Type().Underlying().(*types.Pointer)
+						return isK && k.IsNil() && isP && typeHasSuffix(pt.Elem(), "include.ResolvedJournal")
+					}
+					if (isTreeNil(bo.X, bo.Y) || isTreeNil(bo.Y, bo.X)) && ((bo.Op == token.EQL && cc.Taken) || (bo.Op == token.NEQ && !cc.Taken)) {
+						onlyWithoutTree = true
+					}
+				}
+			}
+			c.check(onlyWithoutTree, "C20-TREE", funcName(f), "single-document balances only when there is no tree", call.Pos(),
+				"the one-journal calculator is reached only when the tree lookup returned nil",
+				"balances are computed from the hovered document alone on a path that does not depend on the include tree being absent: in a workspace, a hover from an included file shows that file's figures instead of the totals over the tree")
+		}
+	}
+	c.note("C20-TREE: %d calls of the one-journal balance calculator on the hover path", nFallback)
 	c.census("C20-TREE", "balance computations from a transaction list on the hover path", len(listCalcs), 1)
 	c.census("C20-TREE", "other consumers of a transaction list on the hover path", len(consumers), 1)
 	want := map[ssa.Value]bool{}
